@@ -721,6 +721,26 @@ func twoStep(max, K, k, S, rounds int, byHandler bool, victimRd string) desc {
 
 func corpus() []desc {
 	var c []desc
+	// a kept-alive request whose response is still buffered, then a request with a complete head whose (non-streamed)
+	// chunked body never starts: the loop ends on io.EOF without flushing, the first response is never sent
+	// (found by the thorough tier; not a C02 matter: the oracle accepts an unanswered handler call)
+	for _, stream := range []bool{false, true} {
+		for _, step := range []int{0, 1, 7} {
+			lost := desc{Stream: stream, Max: 8193, PrePar: true, ReadStep: step, Reqs: []reqD{
+				{ID: 1, Method: "POST", Fr: "multipart", ZeroLine: "0", Rd: "upto", K: 8192, Fin: "detach", Detach: 1},
+				{ID: 2, Method: "PUT", Fr: "chunked", Chunks: []chunkD{{Size: 16387, Line: "04003"}}, ZeroLine: "0;last", Cut: 1, Rd: "eof", Fin: "none"}}}
+			c = append(c, lost)
+			lost2 := desc{Stream: stream, Max: 10000, PrePar: true, ReadStep: step, Reqs: []reqD{
+				{ID: 1, Method: "GET", Fr: "none", ZeroLine: "0", Rd: "none", Fin: "none"},
+				{ID: 2, Method: "POST", Fr: "fixed", N: 10, ZeroLine: "0", Rd: "none", Fin: "none"},
+				{ID: 3, Method: "PUT", Fr: "chunked", Chunks: []chunkD{{Size: 5, Line: "5"}}, ZeroLine: "0", Cut: 1, Rd: "none", Fin: "none"}}}
+			c = append(c, lost2)
+			lost3 := lost2
+			lost3.Reqs = append([]reqD(nil), lost2.Reqs...)
+			lost3.Reqs[2] = reqD{ID: 3, Method: "PUT", Fr: "chunked", Chunks: []chunkD{{Size: 5, Line: "5"}, {Size: 5, Line: "5"}}, ZeroLine: "0", Cut: 1 + 3 + 5 + 2, Rd: "none", Fin: "none"}
+			c = append(c, lost3)
+		}
+	}
 	for _, byHandler := range []bool{false, true} {
 		for _, vr := range []string{"none", "eof"} {
 			c = append(c, twoStep(10000, 200, 60, 400, 3, byHandler, vr))
